@@ -407,6 +407,13 @@ func c0708Worker(w *W) {
 			"logger.lt.tags":                      "vtext",
 			"logger.lt.appenderRef.ref":           "ct",
 		}
+		// the width is written in the spelling this worker draws (every spelling the key normalisation accepts names the same
+		// attribute): canonical, capitalised path elements, kebab, snake, mixed
+		delete(cfg, "appender.cj.layout.fileLineLength")
+		delete(cfg, "appender.ct.layout.file-line-length")
+		sp := [][2]string{{"layout.fileLineLength", "layout.file-line-length"}, {"Layout.FileLineLength", "layout.file_line_length"}, {"layout.FileLineLength", "Layout.fileLineLength"},
+			{"layout.file_line_length", "Layout.FileLineLength"}, {"layout.file-line-length", "layout.FileLineLength"}}[w.Spec.Shard%5]
+		cfg["appender.cj."+sp[0]], cfg["appender.ct."+sp[1]] = strconv.Itoa(W), strconv.Itoa(W)
 		if err := log.Refresh(cfg); err != nil {
 			w.Violate(prop+":pipeline-refresh", "Refresh of a plain two-console configuration failed: "+err.Error(), cfg)
 			return
